@@ -111,6 +111,14 @@ CHECKS = {
         "note": "Trusted: TLC; the harness's process/segment handling; map-iteration seeds are sampled by process count, not enumerated.",
         "technique": "TLA+ trace specification with an unknown function (memo) + TLC validation of recorded call histories enumerated by TLC",
     },
+    "C19": {
+        "text": "spec/Cli.tla states the outcome relation of one tsh invocation on (output directory, input): well-formedness of argv decided by the specification, success => exit 0 and "
+                "each requested target's file holds exactly the library's bytes and nothing else changes, failure => non-zero exit and no new or changed file for a failing target, the "
+                "input never changes. TLC enumerates every order of the option pairs for 6 target lists in both spellings, input names, program kinds, output-directory states and 25 "
+                "ill-formed option lists (spec/FamC19.tla); the real tsh binary is run once per case and the recorded outcome validated by TLC.",
+        "note": "Trusted: TLC; the harness's directory snapshots (SHA-256) and its library call on a copy of the input as the standard.",
+        "technique": "TLA+ outcome relation (Cli) + TLC validation of recorded runs of the real tsh binary over TLC-enumerated invocations",
+    },
 }
 
 NOT_APPLICABLE = {}
